@@ -19,7 +19,7 @@ from frequenz.quantities import Quantity
 from frequenz.sdk._internal._channels import ChannelRegistry
 from frequenz.sdk.microgrid._data_sourcing import ComponentMetricRequest
 from frequenz.sdk.microgrid._resampling import ComponentMetricsResamplingActor
-from frequenz.sdk.timeseries import Sample
+from frequenz.sdk.timeseries import MovingWindow, Sample
 from frequenz.sdk.timeseries._resampling import Resampler, ResamplerConfig
 
 from .. import world
@@ -38,7 +38,8 @@ RULE = {
         "periods; 1-4 series, each added before the start or at a generated virtual time while running; per-tick sink latency "
         "from {0, 0.3, 1, 2.5 periods} on the slow sinks; the first resample() awaited {0, 0.5, 3.7} periods late; the driver "
         "restarts resample() on any exception, as the resampling actor does; a quarter of the cases run the same script "
-        "through a real ComponentMetricsResamplingActor (series = subscription requests, sinks = registry channels). Oracle on the samples handed to every sink: "
+        "through a real ComponentMetricsResamplingActor (series = subscription requests, sinks = registry channels), and some through a MovingWindow with its own resampler "
+        "(continuous raw input; the stored slots must be aligned, start within two periods and be gap-free). Oracle on the samples handed to every sink: "
         "timestamps are t1 + k*period for consecutive k (exact datetimes), aligned to align_to, creation < t1 <= creation + 2 "
         "periods, series resampled together get identical timestamps, a series added at time a joins from the first tick "
         "whose resampling began after a and is gap-free from there. Non-trivial = creation off the grid, or a latency >= 1 "
@@ -49,7 +50,7 @@ ASSUMPTIONS = [
     "virtual time: asyncio timers, the frequenz-channels Timer and datetime.now() share one clock owned by the harness",
     "resample() raising while a series is added during a slow gather is tolerated; the driver restarts it (actor behaviour)",
 ]
-MIN_LABELS = {"C07": {"creation_off_grid": 0.4, "latency_ge_period": 0.3, "series_added_while_running": 0.3, "late_first_call": 0.25, "through_resampling_actor": 0.1}}
+MIN_LABELS = {"C07": {"creation_off_grid": 0.4, "latency_ge_period": 0.3, "series_added_while_running": 0.3, "late_first_call": 0.25, "through_resampling_actor": 0.1, "through_moving_window": 0.05}}
 
 US = timedelta(microseconds=1)
 EPOCH = datetime(1970, 1, 1, tzinfo=timezone.utc)
@@ -73,7 +74,7 @@ def strategy(tier: str, pid: str = "C07") -> st.SearchStrategy[Any]:
         "latency": st.lists(st.sampled_from([0.0, 0.0, 0.0, 0.3, 1.0, 2.5]), min_size=8, max_size=8),
         "init_delay": st.sampled_from([0.0, 0.0, 0.5, 3.7]),
         "horizon": horizon,
-        "driver": st.sampled_from(["direct", "direct", "direct", "actor"]),
+        "driver": st.sampled_from(["direct", "direct", "direct", "actor", "window"]),
     })
 
 
@@ -206,9 +207,62 @@ def run_case(case: Any, pid: str) -> Verdict:
         await actor.stop()
         del keep
 
-    if case.get("driver") == "actor":
+    async def window_scenario() -> None:
+        """MovingWindow with its own resampler: the stored slots are the resampled timeline."""
+        loop = asyncio.get_running_loop()
+        await asyncio.sleep((creation - world.T0).total_seconds())
+        t_create = loop.time()
+        chan: Any = Broadcast(name="c07-raw")
+        horizon = case["horizon"]
+        # the window's ring buffer and its resampler must share one grid: align_to None is replaced by the epoch
+        walign = align if align is not None else EPOCH
+        window = MovingWindow(size=period * (horizon + 4), resampled_data_recv=chan.new_receiver(limit=100000),
+                              input_sampling_period=period / 2,
+                              resampler_config=ResamplerConfig(resampling_period=period, align_to=walign),
+                              align_to=walign)
+        window.start()
+        sender = chan.new_sender()
+        n = 0
+        end = t_create + (horizon + 0.37) * psec
+        # raw samples every half period (so every resampling window has data); late start as generated
+        await asyncio.sleep(case["init_delay"] * psec * 0.1)
+        while loop.time() < end:
+            n += 1
+            await sender.send(Sample(world.now(), Quantity(float(n))))
+            await asyncio.sleep(psec / 2)
+        await world.settle()
+        oldest, newest = window.oldest_timestamp, window.newest_timestamp
+        info["window"] = (oldest, newest, window.count_valid(), window.count_covered())
+        await window.stop()
+
+    driver = case.get("driver", "direct")
+    if driver == "actor":
         v.labels.add("through_resampling_actor")
         world.run(actor_scenario)
+    elif driver == "window":
+        v.labels.add("through_moving_window")
+        world.run(window_scenario)
+        oldest, newest, n_valid, n_covered = info["window"]
+        if oldest is None or newest is None:
+            v.fail(f"MovingWindow with a resampler stored nothing in {case['horizon']} periods of continuous input")
+            return v
+        walign = align if align is not None else EPOCH
+        if (oldest - walign) % period or (newest - walign) % period:
+            v.fail(f"MovingWindow slots {oldest} .. {newest} are not on align_to + k*period (align_to {walign}, period {period})")
+        if not creation < oldest <= creation + 2 * period:
+            v.fail(f"first resampled slot {oldest} not in (creation, creation + 2 periods], creation {creation}")
+        expect_slots = (newest - oldest) // period + 1
+        if n_valid != expect_slots or n_covered != expect_slots:
+            v.fail(f"MovingWindow covers {oldest} .. {newest} = {expect_slots} periods but holds {n_valid} valid / "
+                   f"{n_covered} covered slots (a tick was skipped or duplicated)")
+        last_tick = creation + ((world.T0 + timedelta(seconds=0) - world.T0) + (case["horizon"] + 0.37) * period)
+        if newest < last_tick - 2 * period:
+            v.fail(f"newest slot {newest} lags more than two periods behind the end of the run {last_tick}")
+        v.labels.add("align_" + case["align"])
+        if case["phase"] != "zero":
+            v.labels.add("creation_off_grid")
+        v.nontrivial = case["phase"] != "zero"
+        return v
     else:
         world.run(scenario)
 
